@@ -84,26 +84,53 @@ def canon_graph(reg):
             "models": [m for i, m in enumerate(all_models) if i == 0 or m != all_models[i - 1]]}
 
 
+def outcome(samples, cmps, registry):
+    """canonical graph, or ("RecursionError", raised-inside-==) when the pipeline exhausts the stack"""
+    import traceback
+    try:
+        return canon_graph(stages.build_registry([("Root", samples)], registry, cmps)[0]), None
+    except RecursionError as e:
+        frames = traceback.extract_tb(e.__traceback__)
+        inner = [f.name for f in frames[-40:]]
+        return "RecursionError", all(n == "__eq__" for n in inner[-20:])
+
+
 def check_case(samples, vs, cmps, registry):
-    base = canon_graph(stages.build_registry([("Root", samples)], registry, cmps)[0])
+    base, base_eq = outcome(samples, cmps, registry)
     for v in vs:
-        other = canon_graph(stages.build_registry([("Root", v)], registry, cmps)[0])
+        other, other_eq = outcome(v, cmps, registry)
         if other != base:
-            return {"kind": "order-or-repetition-dependent", "variant": v,
+            kind = "order-or-repetition-dependent"
+            if "RecursionError" in (base, other) and (base_eq or other_eq):
+                # one order compares two distinct self-referential models with `==` (infinite recursion), another does not
+                kind = "F5-eq-recursion-order-dependent"
+            return {"kind": kind, "variant": v,
                     "observed": {"original": repr(base)[:1500], "variant": repr(other)[:1500]}}
     return None
+
+
+def f5_witness():
+    P = {"a": {"a": None, "p1": 1, "p2": 1}, "p1": 1, "p2": 1}
+    Q = {"a": {"a": None, "q1": 1, "q2": 1}, "q1": 1, "q2": 1}
+    parts = {"p": P, "q": Q, "m1": {"f": 1, "g": 1}, "m2": {"f": P, "g": 1}, "m3": {"f": Q, "g": 1}}
+    good = [{k: parts[k]} for k in ("p", "q", "m1", "m2", "m3")]
+    bad = [{k: parts[k]} for k in ("p", "q", "m2", "m3", "m1")]
+    return good, [bad]
 
 
 def falsify(ctx):
     rng = ctx.rng("fals")
     registry = stages.make_registry()
-    for _ in range(ctx.n(150, 4000)):
+    for i in range(ctx.n(150, 4000) + 1):
         r = rng.random()
         samples = gen.gen_sample_family(rng) if r < .6 else gen.gen_shared_samples(rng) if r < .8 else gen.gen_samples(rng)
         cmps = common.cmps_choice(rng)
         if r > .92:
             samples, cmps = gen.gen_chain_samples(rng), []
         vs = variants(rng, samples, ctx.n(4, 24))
+        if i == 0:
+            samples, vs = f5_witness()          # the recorded finding, found by the proof of C07R.merge_success_perm_false
+            cmps = []
         try:
             hit = check_case(samples, vs, cmps, registry)
         except (ZeroDivisionError, stages.TooCostly):
